@@ -257,6 +257,12 @@ func (p *Parser) ParseFile(filename string, varPool *VarPool) (*MetaData, []*Bui
 			}
 
 			name := varPool.GetName(baseName)
+			// The name is written wherever a copied expression refers to the package. Where another file
+			// names the import differently, or reaches it through a dot import, that name may be a local
+			// there (func(cfg *config.Conf) { config.New(cfg) } copied into a file that says cfg "config").
+			for p.capturedByLocal(pkg, path, name) {
+				name = varPool.GetName(baseName)
+			}
 
 			metaData.Imports[path] = &Import{
 				Name:          name,
@@ -298,6 +304,37 @@ func (p *Parser) ParseFile(filename string, varPool *VarPool) (*MetaData, []*Bui
 	}
 
 	return metaData, builds, nil
+}
+
+// capturedByLocal reports whether name denotes a local (a parameter, variable, constant or type of a
+// function) at some place where the package's sources refer to the package imported from path: written
+// there instead of the file's own name for the package, name would not mean the package.
+func (p *Parser) capturedByLocal(pkg *packages.Package, path, name string) bool {
+	if pkg.Types == nil || pkg.TypesInfo == nil {
+		return false
+	}
+	pkgScope := pkg.Types.Scope()
+	for ident, obj := range pkg.TypesInfo.Uses {
+		if pkgName, ok := obj.(*types.PkgName); ok {
+			if pkgName.Imported().Path() != path {
+				continue
+			}
+		} else if obj.Pkg() == nil || obj.Pkg().Path() != path || obj.Parent() != obj.Pkg().Scope() {
+			continue // (an identifier that reaches the package through a dot import passes)
+		}
+		inner := pkgScope.Innermost(ident.Pos())
+		if inner == nil {
+			continue
+		}
+		scope, found := inner.LookupParent(name, ident.Pos())
+		if found == nil || scope == pkgScope || scope == types.Universe {
+			continue
+		}
+		if _, isPkgName := found.(*types.PkgName); !isPkgName {
+			return true
+		}
+	}
+	return false
 }
 
 // fileOf returns the syntax tree of the package's file that contains pos.
